@@ -230,8 +230,14 @@ class Disturb:
         xs = [Sym.var(i, 0) for i in range(3)]
         px, py = xs[1], xs[2]
         a0, a1 = out["areas"]
-        same_area = (a0 is None and a1 is None) or (a0 is not None and a1 is not None and num_equal(a0, a1))
-        obs = [("an operator gives a different kind or area after another operator on the same operands", Fl if out["kinds"][0] == out["kinds"][1] and same_area else T, {"kinds": out["kinds"]})]
+        if out["kinds"][0] != out["kinds"][1] or (a0 is None) != (a1 is None):
+            f = T
+        elif a0 is None:
+            f = Fl
+        else:
+            f = diff_formula(a0, a1)  # z3 condition over t under which the two areas differ (None: identical polynomials)
+            f = Fl if f is None else f
+        obs = [("an operator gives a different kind or area after another operator on the same operands", f, {"kinds": out["kinds"]})]
         r0, r1 = out["_regs"]
         polys = R.polys_of(r0) + R.polys_of(r1)
         obs.append(("an operator gives a different region after another operator on the same operands", z3.And(R.z_off_boundary(px, py, polys), R.z_in(r0, px, py) != R.z_in(r1, px, py)), {}))
